@@ -211,6 +211,89 @@ def judge_content(res, xmlschema, base, cfg, origin, maxlen, rng, limit):
                 res.sample({'base': M.text(base), 'candidate': M.text(derived), 'edit': label, 'version': version, 'accepted': True})
 
 
+def judge_redefine(res, xmlschema, base, cfg, origin, maxlen, rng, limit, scratch):
+    """Redefinition of a named model group by restriction, alone (main redefines base) and at the bottom of a chain
+    whose top redefines the group once more by extension (self-reference): accepted => L(new G) subset of L(G)."""
+    import os
+    base = M.to_tuple(base)
+    if cfg.get('open') or cfg.get('groupref') or not M.is_group(base) or M.occ(base) != (1, 1) or base[0] == 'a':
+        return
+    bmodel = R.Model(base, cfg)
+    if not R.deterministic(bmodel, '1.0')[0]:
+        return
+    cands = [c for c in dict((c[1], c) for c in candidates(base)).values()
+             if M.is_group(c[1]) and M.occ(c[1]) == (1, 1) and c[1][0] != 'a']
+    rng.shuffle(cands)
+
+    def doc(body):
+        return M.schema_head() + body + '</xs:schema>\n'
+    for label, derived in cands[:limit]:
+        dmodel = R.Model(derived, cfg)
+        words = words_for(base, derived, cfg, maxlen)
+        witnesses = [w for w in words if R.in_language_deriv(dmodel, w) and not R.in_language_deriv(bmodel, w)][:6]
+        included = not witnesses
+        files = {
+            'base.xsd': doc(M.subst_decls(cfg) + '  <xs:group name="G">\n' + M.render_particle(base, cfg, '    ') + '  </xs:group>\n'
+                            '  <xs:element name="g"><xs:complexType><xs:group ref="t:G"/></xs:complexType></xs:element>\n'),
+            'mid.xsd': doc('  <xs:redefine schemaLocation="base.xsd">\n  <xs:group name="G">\n' +
+                           M.render_particle(derived, cfg, '    ') + '  </xs:group>\n  </xs:redefine>\n'),
+            'top.xsd': doc('  <xs:redefine schemaLocation="mid.xsd">\n  <xs:group name="G"><xs:sequence><xs:group ref="t:G"/>'
+                           '<xs:element name="zz" type="xs:string" minOccurs="0"/></xs:sequence></xs:group>\n  </xs:redefine>\n'),
+        }
+        for name, text in files.items():
+            with open(os.path.join(scratch, name), 'w') as f:
+                f.write(text)
+        for version, cls in (('1.0', xmlschema.XMLSchema10), ('1.1', xmlschema.XMLSchema11)):
+            if version == '1.0' and not (K.expressible_10(base) and K.expressible_10(derived)):
+                continue
+            base_schema, err = build(cls, os.path.join(scratch, 'base.xsd'))
+            if base_schema is None:
+                res.count('redefine:base_refused')
+                continue
+            # the same pair as a complex type restriction: the redefinition routes use the same checker, so an unsound
+            # acceptance shared with that route is the finding listed for it; only a redefinition that accepts what the
+            # type route (or, for the chain, the single redefinition) refuses is something else
+            def verdict(built):
+                if built[0] is not None:
+                    return 'accepted'
+                return 'refused-as-restriction' if 'restriction' in str(built[1]) else 'refused-otherwise'
+            accepted_by = {'type': verdict(build(cls, restriction_schema(base, derived, cfg)))}
+            for route, entry in (('redefine', 'mid.xsd'), ('redefine-chain', 'top.xsd')):
+                schema, err = build(cls, os.path.join(scratch, entry))
+                res.evaluations += 1
+                accepted_by[route] = verdict((schema, err))
+                if schema is None:
+                    res.count(f'{route}:{version}:refused:' + ('not_included' if not included else 'over_strict'))
+                    continue
+                res.count(f'{route}:{version}:accepted:' + ('included' if included else 'reference_says_not_included'))
+                res.nontrivial.add(env.h8((route, version, M.text(base), M.text(derived))))
+                probe = witnesses if not included else (words if len(words) <= 200 else rng.sample(words, 200))
+                found = None
+                for w in probe:
+                    if schema.is_valid(M.instance_element(w, 'g')) and not base_schema.is_valid(M.instance_element(w, 'g')):
+                        if R.in_language_deriv(dmodel, w) and not R.in_language_deriv(bmodel, w) and \
+                                R.in_language_ends(dmodel, w) and not R.in_language_ends(bmodel, w):
+                            found = w
+                            break
+                        res.count('library_witness_not_confirmed_by_reference(C01 defect)')
+                if found is not None:
+                    case = {'base': base, 'derived': derived, 'cfg': cfg, 'version': version, 'word': found, 'label': label,
+                            'route': route, 'files': files}
+                    # listed under the type route's family when the same checker accepts the pair there (or, for the chain,
+                    # as a single redefinition); new when every other route refuses it as an illegal restriction
+                    others = [accepted_by['type']] + ([accepted_by['redefine']] if route == 'redefine-chain' else [])
+                    mech = f'content:{version}:{family(label)}' if any(v != 'refused-as-restriction' for v in others) else \
+                        f'{route}:{version}:accepted-although-refused-as-restriction-by-the-other-routes'
+                    res.violation(mech, case,
+                                  f'{version} {route}: group {M.text(derived)} accepted as redefinition (restriction) of '
+                                  f'{M.text(base)}{K.cfg_text(cfg)} but {"".join(found) or "<empty>"} is valid for the new group only '
+                                  f'({origin}; edit {label})')
+                elif included:
+                    res.count(f'{route}:agree')
+                else:
+                    res.count(f'{route}:witness_not_confirmed_by_library')
+
+
 def catalogue():
     e = lambda n, mn=1, mx=1: ('e', n, mn, mx)
     s = lambda kids, mn=1, mx=1: ('s', tuple(kids), mn, mx)
@@ -229,9 +312,12 @@ def catalogue():
 def run_content(spec, res):
     xmlschema = env.activate_repo()
     rng = env.rng_for(PROPERTY, spec['tier'], spec['seed'], 'content', spec.get('cshard', 0))
+    import tempfile
+    scratch = tempfile.mkdtemp(prefix='c14-')
     if spec['kind'] == 'catalogue':
         for base, cfg in catalogue():
             judge_content(res, xmlschema, base, cfg, 'catalogue', 5, rng, 400)
+            judge_redefine(res, xmlschema, base, cfg, 'catalogue', 5, rng, 12, scratch)
         return
     for n in range(spec['n']):
         cfg = {}
@@ -243,6 +329,7 @@ def run_content(spec, res):
             cfg['subst'] = rng.choice(('plain', 'plain', 'member_abstract'))
         res.count('content:bases')
         judge_content(res, xmlschema, base, cfg, 'random', spec['maxlen'], rng, 26 if spec['tier'] == 'quick' else 40)
+        judge_redefine(res, xmlschema, base, cfg, 'random', spec['maxlen'], rng, 6 if spec['tier'] == 'quick' else 12, scratch)
 
 
 # ---------------------------------------------------------------------------------------------
